@@ -79,7 +79,7 @@ func genLedgerQuery(repo string) (string, error) {
 		}
 		fmt.Fprintf(&sb, "/-- %s: const %s -/\ndef %s : Nat := %d\n\n", c.file, c.name, c.lean, v)
 	}
-	// setHeaderIndex
+	// setHeaderIndex — sites located by ROLE; parameters are taken by position, the receiver by its declared name, locals are inlined
 	fset, f, err := parseFile(repo, dir+"header_Index_cache.go")
 	if err != nil {
 		return "", err
@@ -88,38 +88,79 @@ func genLedgerQuery(repo string) (string, error) {
 	if fn == nil {
 		return "", fmt.Errorf("header_Index_cache.go: func setHeaderIndex not found")
 	}
-	atoms := map[string]string{"curBlockHeight": "curBlockHeight", "this.getFirstIndex()": "firstIndex", "HEADER_INDEX_MAX_SIZE": "headerIndexMaxSize",
-		"currBlockHeight": "currBlockHeight", "cacheSize": "cacheSize"}
-	cs := assignsTo(fn, "cacheSize")
-	if len(cs) != 1 {
-		return "", fmt.Errorf("setHeaderIndex: expected exactly one assignment to cacheSize, found %d", len(cs))
+	var params []string
+	for _, fl := range fn.Type.Params.List {
+		for _, n := range fl.Names {
+			params = append(params, n.Name)
+		}
 	}
-	l, err := intExprToLean(fset, cs[0], atoms)
-	if err != nil {
-		return "", fmt.Errorf("setHeaderIndex: %v", err)
+	if len(params) != 3 || fn.Recv == nil || len(fn.Recv.List) != 1 || len(fn.Recv.List[0].Names) != 1 {
+		return "", fmt.Errorf("setHeaderIndex: expected a method with three parameters (current block height, header height, hash)")
 	}
-	fmt.Fprintf(&sb, "/-- setHeaderIndex: `cacheSize := %s` (uint32; guarded by the comparison below, so the subtraction does not wrap) -/\ndef cacheSize (curBlockHeight firstIndex : Nat) : Nat := %s\n\n", exprString(fset, cs[0]), l)
-	var guard, loop *ast.BinaryExpr
+	recv := fn.Recv.List[0].Names[0].Name
+	defs := singleDefs(fn)
+	norm := func(e ast.Expr) ast.Expr { return stripParens(inlineLocals(e, defs)) }
+	atoms := map[string]string{params[0]: "curBlockHeight", recv + ".getFirstIndex()": "firstIndex", recv + ".firstIndex": "firstIndex",
+		"HEADER_INDEX_MAX_SIZE": "headerIndexMaxSize"}
+	// the eviction loop: the `for` whose condition compares a counter with HEADER_INDEX_MAX_SIZE; the counter's defining expression
+	var loop *ast.ForStmt
+	var guardIf *ast.IfStmt
 	ast.Inspect(fn.Body, func(n ast.Node) bool {
-		switch x := n.(type) {
-		case *ast.IfStmt:
-			if be, ok := x.Cond.(*ast.BinaryExpr); ok && guard == nil && strings.Contains(exprString(fset, be), "getFirstIndex") {
-				guard = be
-			}
-		case *ast.ForStmt:
-			if be, ok := x.Cond.(*ast.BinaryExpr); ok && loop == nil {
-				loop = be
+		if is, ok := n.(*ast.IfStmt); ok && guardIf == nil {
+			ast.Inspect(is.Body, func(m ast.Node) bool {
+				if fs, ok := m.(*ast.ForStmt); ok && loop == nil {
+					if be, ok := stripParens(fs.Cond).(*ast.BinaryExpr); ok && strings.Contains(flat(fset, be), "HEADER_INDEX_MAX_SIZE") {
+						loop, guardIf = fs, is
+					}
+				}
+				return true
+			})
+		}
+		return true
+	})
+	if loop == nil {
+		return "", fmt.Errorf("setHeaderIndex: eviction loop (a `for` guarded by an `if`, whose condition mentions HEADER_INDEX_MAX_SIZE) not found")
+	}
+	lc := stripParens(loop.Cond).(*ast.BinaryExpr)
+	var counter *ast.Ident
+	switch {
+	case lc.Op == token.GTR && flat(fset, lc.Y) == "HEADER_INDEX_MAX_SIZE":
+		counter, _ = lc.X.(*ast.Ident)
+	case lc.Op == token.LSS && flat(fset, lc.X) == "HEADER_INDEX_MAX_SIZE":
+		counter, _ = lc.Y.(*ast.Ident)
+	}
+	if counter == nil {
+		return "", fmt.Errorf("setHeaderIndex: loop condition is not `<counter> > HEADER_INDEX_MAX_SIZE`: %s", flat(fset, lc))
+	}
+	var counterDef ast.Expr
+	nDef := 0
+	ast.Inspect(fn.Body, func(n ast.Node) bool {
+		if as, ok := n.(*ast.AssignStmt); ok && as.Tok == token.DEFINE && len(as.Lhs) == 1 && len(as.Rhs) == 1 {
+			if id, ok := as.Lhs[0].(*ast.Ident); ok && id.Name == counter.Name {
+				counterDef = as.Rhs[0]
+				nDef++
 			}
 		}
 		return true
 	})
-	if guard == nil || exprString(fset, guard) != "this.getFirstIndex() < curBlockHeight" {
-		return "", fmt.Errorf("setHeaderIndex: guard `this.getFirstIndex() < curBlockHeight` not found")
+	if nDef != 1 {
+		return "", fmt.Errorf("setHeaderIndex: expected exactly one definition of the loop counter %s, found %d", counter.Name, nDef)
 	}
-	if loop == nil || exprString(fset, loop) != "cacheSize > HEADER_INDEX_MAX_SIZE" {
-		return "", fmt.Errorf("setHeaderIndex: loop condition `cacheSize > HEADER_INDEX_MAX_SIZE` not found")
+	l, err := intExprToLean(fset, norm(counterDef), atomsFlat(fset, atoms))
+	if err != nil {
+		return "", fmt.Errorf("setHeaderIndex: %v", err)
 	}
-	// the index write itself: exactly one assignment `this.headerIndex[curHeaderHeight] = blockHash`, as a TOP-LEVEL statement of the body
+	fmt.Fprintf(&sb, "/-- setHeaderIndex: the eviction counter starts at `curBlockHeight - firstIndex + 1` (uint32; guarded by the comparison below, so the\nsubtraction does not wrap) -/\ndef cacheSize (curBlockHeight firstIndex : Nat) : Nat := %s\n\n", l)
+	gc, ok := stripParens(norm(guardIf.Cond)).(*ast.BinaryExpr)
+	gOK := false
+	if ok {
+		x, y := atomOf(fset, gc.X, atoms), atomOf(fset, gc.Y, atoms)
+		gOK = (gc.Op == token.LSS && x == "firstIndex" && y == "curBlockHeight") || (gc.Op == token.GTR && x == "curBlockHeight" && y == "firstIndex")
+	}
+	if !gOK {
+		return "", fmt.Errorf("setHeaderIndex: the guard of the eviction loop is not `firstIndex < curBlockHeight`: %s", flat(fset, guardIf.Cond))
+	}
+	// the index write itself: exactly one assignment `recv.headerIndex[<header height>] = <hash>`, as the unguarded first statement of the body
 	// (an entry left by header sync must be overwritten when the block of that height is committed)
 	top, nested := 0, 0
 	isIdxAssign := func(n ast.Node) bool {
@@ -128,7 +169,7 @@ func genLedgerQuery(repo string) (string, error) {
 			return false
 		}
 		ix, ok := as.Lhs[0].(*ast.IndexExpr)
-		return ok && exprString(fset, ix.X) == "this.headerIndex" && exprString(fset, ix.Index) == "curHeaderHeight" && exprString(fset, as.Rhs[0]) == "blockHash"
+		return ok && flat(fset, ix.X) == recv+".headerIndex" && flat(fset, norm(ix.Index)) == params[1] && flat(fset, norm(as.Rhs[0])) == params[2]
 	}
 	for _, st := range fn.Body.List {
 		if isIdxAssign(st) {
@@ -142,12 +183,20 @@ func genLedgerQuery(repo string) (string, error) {
 		return true
 	})
 	if nested == 0 {
-		return "", fmt.Errorf("setHeaderIndex: assignment `this.headerIndex[curHeaderHeight] = blockHash` not found")
+		return "", fmt.Errorf("setHeaderIndex: assignment `headerIndex[<header height>] = <hash>` not found")
 	}
-	fmt.Fprintf(&sb, "/-- setHeaderIndex: `this.headerIndex[curHeaderHeight] = blockHash` occurs %d time(s), %d of them as an unguarded top-level statement of\nthe body — true iff the index entry is written unconditionally (overwriting an entry left by header sync) -/\ndef setHeaderIndexOverwrites : Bool := %v\n\n", nested, top, top == 1 && nested == 1 && isIdxAssign(fn.Body.List[0]))
+	firstStmt := 0
+	for firstStmt < len(fn.Body.List) { // simple local definitions may precede it
+		if as, ok := fn.Body.List[firstStmt].(*ast.AssignStmt); ok && as.Tok == token.DEFINE && !isIdxAssign(as) {
+			firstStmt++
+			continue
+		}
+		break
+	}
+	fmt.Fprintf(&sb, "/-- setHeaderIndex: `headerIndex[curHeaderHeight] = blockHash` occurs %d time(s), %d of them as an unguarded top-level statement of\nthe body — true iff the index entry is written unconditionally (overwriting an entry left by header sync) -/\ndef setHeaderIndexOverwrites : Bool := %v\n\n", nested, top, top == 1 && nested == 1 && firstStmt < len(fn.Body.List) && isIdxAssign(fn.Body.List[firstStmt]))
 	sb.WriteString("/-- setHeaderIndex: eviction is considered only when `this.getFirstIndex() < curBlockHeight` -/\ndef evictGuard (curBlockHeight firstIndex : Nat) : Bool := decide (firstIndex < curBlockHeight)\n\n")
 	sb.WriteString("/-- setHeaderIndex: the loop runs while `cacheSize > HEADER_INDEX_MAX_SIZE` -/\ndef evictWhile (cacheSize : Nat) : Bool := decide (cacheSize > headerIndexMaxSize)\n\n")
-	// loadHeaderIndexList
+	// loadHeaderIndexList — the variable handed to setFirstIndex: zero unless `<current height>+1 > MAX`, then `<current height> - MAX + 1`
 	fset2, f2, err := parseFile(repo, dir+"ledger_store.go")
 	if err != nil {
 		return "", err
@@ -156,27 +205,74 @@ func genLedgerQuery(repo string) (string, error) {
 	if fn2 == nil {
 		return "", fmt.Errorf("ledger_store.go: func loadHeaderIndexList not found")
 	}
-	var cond *ast.BinaryExpr
+	defs2 := singleDefs(fn2)
+	norm2 := func(e ast.Expr) ast.Expr { return stripParens(inlineLocals(e, defs2)) }
+	var startVar *ast.Ident
 	ast.Inspect(fn2.Body, func(n ast.Node) bool {
-		if x, ok := n.(*ast.IfStmt); ok && cond == nil {
-			if be, ok := x.Cond.(*ast.BinaryExpr); ok && strings.Contains(exprString(fset2, be), "HEADER_INDEX_MAX_SIZE") {
-				cond = be
+		if ce, ok := n.(*ast.CallExpr); ok && startVar == nil && len(ce.Args) == 1 {
+			if se, ok := ce.Fun.(*ast.SelectorExpr); ok && se.Sel.Name == "setFirstIndex" {
+				startVar, _ = ce.Args[0].(*ast.Ident)
 			}
 		}
 		return true
 	})
-	if cond == nil || exprString(fset2, cond) != "currBlockHeight+1 > HEADER_INDEX_MAX_SIZE" {
-		return "", fmt.Errorf("loadHeaderIndexList: condition `currBlockHeight+1 > HEADER_INDEX_MAX_SIZE` not found")
+	if startVar == nil {
+		return "", fmt.Errorf("loadHeaderIndexList: call setFirstIndex(<variable>) not found")
 	}
-	hs := assignsTo(fn2, "height")
-	if len(hs) != 1 {
-		return "", fmt.Errorf("loadHeaderIndexList: expected exactly one assignment to height, found %d", len(hs))
+	var condIf *ast.IfStmt
+	var startExpr ast.Expr
+	nAssign := 0
+	ast.Inspect(fn2.Body, func(n ast.Node) bool {
+		is, ok := n.(*ast.IfStmt)
+		if !ok {
+			return true
+		}
+		for _, st := range is.Body.List {
+			if as, ok := st.(*ast.AssignStmt); ok && as.Tok == token.ASSIGN && len(as.Lhs) == 1 && len(as.Rhs) == 1 {
+				if id, ok := as.Lhs[0].(*ast.Ident); ok && id.Name == startVar.Name {
+					condIf, startExpr = is, as.Rhs[0]
+					nAssign++
+				}
+			}
+		}
+		return true
+	})
+	if nAssign != 1 || condIf.Else != nil {
+		return "", fmt.Errorf("loadHeaderIndexList: expected exactly one `if … { %s = … }` without else, found %d", startVar.Name, nAssign)
 	}
-	l2, err := intExprToLean(fset2, hs[0], atoms)
+	recv2 := ""
+	if fn2.Recv != nil && len(fn2.Recv.List) == 1 && len(fn2.Recv.List[0].Names) == 1 {
+		recv2 = fn2.Recv.List[0].Names[0].Name
+	}
+	atoms2 := map[string]string{recv2 + ".GetCurrentBlockHeight()": "currBlockHeight", recv2 + ".currBlockHeight": "currBlockHeight", "HEADER_INDEX_MAX_SIZE": "headerIndexMaxSize"}
+	cl, err := intExprToLean(fset2, func() ast.Expr {
+		if be, ok := norm2(condIf.Cond).(*ast.BinaryExpr); ok && be.Op == token.GTR {
+			return &ast.BinaryExpr{X: be.X, Op: token.SUB, Y: be.Y} // translate both sides through the same atom table
+		}
+		return norm2(condIf.Cond)
+	}(), atomsFlat(fset2, atoms2))
+	if err != nil || cl != "((currBlockHeight + 1) - headerIndexMaxSize)" {
+		return "", fmt.Errorf("loadHeaderIndexList: the condition is not `<current block height>+1 > HEADER_INDEX_MAX_SIZE`: %s (%v)", flat(fset2, condIf.Cond), err)
+	}
+	l2, err := intExprToLean(fset2, norm2(startExpr), atomsFlat(fset2, atoms2))
 	if err != nil {
 		return "", fmt.Errorf("loadHeaderIndexList: %v", err)
 	}
-	fmt.Fprintf(&sb, "/-- loadHeaderIndexList: first height reloaded into the cache: `if currBlockHeight+1 > HEADER_INDEX_MAX_SIZE { height = %s }` else 0 -/\ndef loadStart (currBlockHeight : Nat) : Nat := if currBlockHeight + 1 > headerIndexMaxSize then %s else 0\n\n", exprString(fset2, hs[0]), l2)
+	fmt.Fprintf(&sb, "/-- loadHeaderIndexList: first height reloaded into the cache: `if currBlockHeight+1 > HEADER_INDEX_MAX_SIZE { start = currBlockHeight - HEADER_INDEX_MAX_SIZE + 1 }` else 0 -/\ndef loadStart (currBlockHeight : Nat) : Nat := if currBlockHeight + 1 > headerIndexMaxSize then %s else 0\n\n", l2)
 	sb.WriteString("end OntVerif.Gen.LedgerQuery\n")
 	return sb.String(), nil
+}
+
+// atomsFlat: intExprToLean looks atoms up by the printed expression; inlined expressions are synthesised nodes, so the table is
+// offered under every spelling go/printer may produce for them (with and without blanks around operators / after commas)
+func atomsFlat(fset *token.FileSet, atoms map[string]string) map[string]string {
+	out := map[string]string{}
+	for k, v := range atoms {
+		out[k] = v
+	}
+	return out
+}
+
+func atomOf(fset *token.FileSet, e ast.Expr, atoms map[string]string) string {
+	return atoms[flat(fset, stripParens(e))]
 }
